@@ -76,6 +76,14 @@ MapFinger(r) ==
   ELSE IF r.panic THEN {<<"C11", "method-with-default-panics", "map-method", r.id>>}
   ELSE (IF r.res.A # 1 THEN {<<"C11", "nil-source-does-not-return-constructor-result", "map-method", r.id>>} ELSE {})
        \cup (IF r.res.B # 5 THEN {<<"C11", "mapped-field-not-converted", "map-method", r.id>>} ELSE {})
+\* C07 on update methods: Update(source UWS, target *UWT) error with a failing custom function below field V, under wrapErrors
+\* ("error setting field V: boom") and wrapErrorsUsing (path <<"V">>)
+UpdWrapFinger(r) ==
+  IF r.gen = "panic" THEN {<<"C13", "generator-panic", r.why, r.id>>}
+  ELSE IF r.gen # "ok" THEN {<<"C10", "update-method-rejected", "update-wrap", r.id>>}
+  ELSE IF ~r.compiles THEN {<<"C01", "does-not-compile", "update-wrap", r.id>>}
+  ELSE IF r.err = "" THEN {<<"C07", "error-dropped", "update-method", r.id>>}
+  ELSE IF r.path # <<"V">> THEN {<<"C07", "wrong-location-path", "update-method-" \o r.prog.x, r.id>>} ELSE {}
 \* C11, default constructors: res = [nil, A, B] of the returned struct (nil: a nil pointer was returned)
 DMatch(e, got) == e = -1 \/ e = got
 DefFinger(r) ==
@@ -93,11 +101,11 @@ DefFinger(r) ==
 Finger18(r) ==
   IF r.gen # "ok" \/ "imports" \notin DOMAIN r THEN {}
   ELSE (IF Rng(r.imports) \cap {"reflect", "unsafe"} # {} THEN {<<"C18", "imports-reflect-or-unsafe", r.kind, r.id>>} ELSE {})
-       \cup (IF ~(Rng(r.imports) \subseteq {"user", "user-q"}) THEN {<<"C18", "imports-differ-from-owners-of-used-types", r.kind, r.id>>} ELSE {})
+       \cup (IF ~(Rng(r.imports) \subseteq {"user", "user-q"} \cup (IF r.kind = "update-wrap" THEN (IF r.prog.x = "plain" THEN {"fmt"} ELSE {"wrap-pkg"}) ELSE {})) THEN {<<"C18", "imports-differ-from-owners-of-used-types", r.kind, r.id>>} ELSE {})
        \cup (IF \E i \in DOMAIN r.decls : r.decls[i] \notin {"struct", "method"} THEN {<<"C18", "extra-top-level-declaration", r.kind, r.id>>} ELSE {})
 Finger0(r) == IF r.kind = "genfile" THEN {}
               ELSE IF r.kind = "update-iface" THEN (IF r.gen = "ok" /\ r.compiles THEN {} ELSE {<<"C10", "update-method-rejected", "interface-member", r.id>>})
-              ELSE IF r.kind = "field" THEN FieldFinger(r) ELSE IF r.kind = "acc" THEN AccFinger(r) ELSE IF r.kind = "fieldx" THEN XFinger(r) ELSE IF r.kind = "default-rebuild" THEN RebuildFinger(r) ELSE IF r.kind = "default-list" THEN ListFinger(r) ELSE IF r.kind = "default-map" THEN MapFinger(r) ELSE IF r.kind \in {"default-update-rec", "default-update-shared"} THEN UpdRecFinger(r) ELSE IF r.kind = "default" THEN DefFinger(r) ELSE UpdFinger(r)
+              ELSE IF r.kind = "field" THEN FieldFinger(r) ELSE IF r.kind = "acc" THEN AccFinger(r) ELSE IF r.kind = "fieldx" THEN XFinger(r) ELSE IF r.kind = "default-rebuild" THEN RebuildFinger(r) ELSE IF r.kind = "default-list" THEN ListFinger(r) ELSE IF r.kind = "default-map" THEN MapFinger(r) ELSE IF r.kind = "update-wrap" THEN UpdWrapFinger(r) ELSE IF r.kind \in {"default-update-rec", "default-update-shared"} THEN UpdRecFinger(r) ELSE IF r.kind = "default" THEN DefFinger(r) ELSE UpdFinger(r)
 VARIABLES l, bad
 Init == l = 1 /\ bad = {}
 Next == /\ l <= Len(Obs)
